@@ -90,6 +90,8 @@ type Explorer struct {
 	freshN     int
 	decimals   map[int]int
 	spec       int
+	nowCount   int
+	lastNow    *Term
 	panicTrace string
 	curFrame   *frame
 	ForkSites  map[string]int
@@ -174,6 +176,8 @@ func (e *Explorer) beginPath(prefix []int) {
 	e.overflowObl = nil
 	e.pathInconclusive = ""
 	e.freshN = 0
+	e.nowCount = 0
+	e.lastNow = nil
 	e.panicTrace = ""
 	e.decimals = map[int]int{}
 	e.strLenUsed = false
